@@ -230,6 +230,24 @@ func init() {
 	genericDocs["zipmeta:healthy"] = zipMeta("Metadata-Version: 2.1\nName: pkg\nVersion: 1.0\ngroupId=org.example\nartifactId=lib\nversion=1.0\n", false)
 	genericDocs["zipmeta:badflate"] = zipMeta(strings.Repeat("Name: pkg\nVersion: 1.0\n", 40), true)
 	genericDocs["zipmeta:nomembers"] = func() []byte { return buildZip(nil) }
+	// own-<extractor tag>-…: documents planned for ONE extractor only (ownDocs), reaching branches no testdata file of /repo reaches.
+	// java/archive, manifest.go: the Apache Maven Bundle Plugin rule (artifact id = last part of Bundle-SymbolicName) and the place-holder
+	// artifact ids ("${…}", "%pluginName") that must be passed over.
+	mf := func(content string) func() []byte {
+		return func() []byte {
+			return buildZip([]zmember{{name: "META-INF/MANIFEST.MF", data: []byte("Manifest-Version: 1.0\r\n" + content), method: zip.Deflate}})
+		}
+	}
+	for k, v := range map[string]string{
+		"bundle":        "Created-By: Apache Maven Bundle Plugin\r\nBundle-SymbolicName: com.google.guava.failureaccess\r\nBundle-Version: 1.0.1\r\nImplementation-Vendor-Id: com.google.guava\r\n",
+		"bundle-noname": "Created-By: Apache Maven Bundle Plugin\r\nBundle-Version: 1.0.1\r\nImplementation-Vendor-Id: com.google.guava\r\n",
+		"bundle-dot":    "Created-By: Apache Maven Bundle Plugin\r\nBundle-SymbolicName: com.google.guava.\r\nBundle-Version: 1.0.1\r\nBundle-Name: x\r\n",
+		"bundle-dollar": "Created-By: Apache Maven Bundle Plugin\r\nBundle-SymbolicName: org.${bundle}\r\nBundle-Version: 1.0.1\r\nImplementation-Title: ${project.name}\r\nBundle-Name: %pluginName\r\nName: ok\r\nImplementation-Vendor-Id: org.x\r\n",
+		"percent":       "Bundle-SymbolicName: %pluginName\r\nBundle-Name: %pluginName\r\nImplementation-Title: %t\r\nName: %n\r\nBundle-Version: 2.0\r\nImplementation-Vendor-Id: org.x\r\n",
+		"axis":          "Name: org/apache/axis\r\nImplementation-Version: 1.4\r\nImplementation-Vendor-Id: org.apache\r\n",
+	} {
+		genericDocs["own-jar-"+k] = mf(v)
+	}
 }
 
 // containerPaths: extractors that read zip containers -> the accepted path names a container is presented at.
